@@ -47,6 +47,11 @@ CLAIMS = {
         technique='symbolic execution (CrossHair/z3) of the real Interpolator on symbolic text with a symbolic validator mask vs a scanner oracle; entity-decoding kernel; differential symbolic execution of interpolation contexts/switch templates',
         text='Interpolator segmentation decided for all code points of each text shape and all accept/reject patterns of the expression validator; contexts and on/off switches per enumerated template.',
         note='Trusted: CrossHair regex/string models + chsym plugin; validator stand-in (accept iff bit len(candidate) of a symbolic mask) replaces the Python parser; reference interpreter for contexts.'),
+    'C11': dict(
+        engine='X', level='model_checking', design_ref='DESIGN.md 4 C11',
+        technique='symbolic execution (CrossHair/z3) of Token operations, statement-argument parsers and the front end on symbolic text: every produced/raised token must satisfy source[pos:pos+len]==token',
+        text='Inductive step per Token operation and bounded producer/front-end harnesses decided over all code points of each shape; line/column closed form; well-formed skeletons never rejected.',
+        note='Trusted: CrossHair string/regex models + chsym plugin (Token.__new__ modelled). Error tokens produced by the Python parser for invalid expressions are outside (C boundary); cross-compile state outside.'),
     'C03': dict(
         engine='X+Z', level='model_checking', design_ref='DESIGN.md 4 C03',
         technique='symbolic execution (CrossHair/z3) of iter_xml/match_tag/emitters on shape-enumerated character-symbolic strings; z3 regex inclusion from the live lexer pattern',
